@@ -432,9 +432,16 @@ impl Report {
     }
 }
 
+thread_local! {
+    static IN_GUARD: std::cell::Cell<u32> = const { std::cell::Cell::new(0) };
+}
+
 /// Runs `f` under `catch_unwind`; a panic becomes `Err(message)`.
 pub fn guard<T>(f: impl FnOnce() -> T) -> Result<T, String> {
-    match catch_unwind(AssertUnwindSafe(f)) {
+    IN_GUARD.with(|g| g.set(g.get() + 1));
+    let r = catch_unwind(AssertUnwindSafe(f));
+    IN_GUARD.with(|g| g.set(g.get() - 1));
+    match r {
         Ok(v) => Ok(v),
         Err(e) => {
             let msg = if let Some(s) = e.downcast_ref::<&str>() {
@@ -449,9 +456,15 @@ pub fn guard<T>(f: impl FnOnce() -> T) -> Result<T, String> {
     }
 }
 
-/// Silences the default panic message (panics are caught and reported as violations).
+/// Silences the panic message of panics that are caught by `guard` (they are reported as
+/// violations); panics of the harness itself keep the default message.
 pub fn quiet_panics() {
-    std::panic::set_hook(Box::new(|_| {}));
+    let default = std::panic::take_hook();
+    std::panic::set_hook(Box::new(move |info| {
+        if IN_GUARD.with(|g| g.get()) == 0 {
+            default(info);
+        }
+    }));
 }
 
 // ---------------------------------------------------------------------------------------------
